@@ -21,6 +21,8 @@ type propCheck struct {
 
 var registry = map[string]func(c *Ctx){}
 
+var debugCmds = map[string]func(args []string) int{}
+
 func register(id string, f func(c *Ctx)) { registry[id] = f }
 
 func verifDir() string {
@@ -46,6 +48,11 @@ func main() {
 		os.Exit(cmdCheck(os.Args[2:]))
 	case "explain":
 		os.Exit(cmdExplain(os.Args[2:]))
+	case "debug":
+		if f := debugCmds[os.Args[2]]; f != nil {
+			os.Exit(f(os.Args[3:]))
+		}
+		usage()
 	case "list":
 		var ids []string
 		for id := range registry {
@@ -208,4 +215,54 @@ func cmdExplain(args []string) int {
 	}
 	fmt.Printf("re-evaluating %s on the current tree:\n", rep.Property)
 	return cmdCheck([]string{"--prop", rep.Property, "--tier", rep.Tier, "--repo", rep.Repo, "--out", os.TempDir()})
+}
+
+func init() {
+	debugCmds["bounds"] = func(args []string) int {
+		// hopverif debug bounds <repo> <rel pkg> <func>...
+		p, err := Load(args[0], "", nil)
+		if err != nil {
+			fmt.Println(err)
+			return 2
+		}
+		eng := newBoundsEngine(p)
+		for _, fnName := range args[2:] {
+			fn := p.Func(args[1], fnName)
+			if fn == nil {
+				fmt.Println("not found", fnName)
+				continue
+			}
+			s := eng.summary(fn)
+			fmt.Printf("== %s proven=%d\n", FuncName(fn), s.proven)
+			for _, r := range s.requires {
+				fmt.Printf("  requires %s : %s >= 0   (%s)\n", r.what, r.e, p.InstrPos(r.ins))
+			}
+			for _, r := range s.unproven {
+				fmt.Printf("  UNPROVEN %s : %s >= 0   (%s)\n", r.what, r.e, p.InstrPos(r.ins))
+			}
+			for _, f := range s.ensuresAl {
+				fmt.Printf("  always  %s >= 0\n", f)
+			}
+			for _, f := range s.ensuresOK {
+				fmt.Printf("  success %s >= 0\n", f)
+			}
+		}
+		return 0
+	}
+}
+
+func init() {
+	debugCmds["fieldwrites"] = func(args []string) int {
+		p, err := Load(args[0], "", nil)
+		if err != nil {
+			fmt.Println(err)
+			return 2
+		}
+		f := p.Field(args[1], args[2], args[3])
+		fmt.Println("field", f)
+		for _, w := range p.FieldWrites(f, args[1]) {
+			fmt.Printf("%s %s %s val=%v (%T)\n", FuncName(w.Fn), w.Kind, p.InstrPos(w.Instr), w.Val, w.Val)
+		}
+		return 0
+	}
 }
